@@ -1,4 +1,4 @@
-(* Model/Http2Streams.v -- executable model of mitmproxy's HTTP/2 connection objects (C05):
+(* Model/Http2Streams.v -- executable model of the mitmproxy HTTP/2 connection objects (C05):
      proxy/layers/http/_http_h2.py  BufferedH2Connection (stream_buffers, stream_trailers, window updates)
      proxy/layers/http/_http2.py    Http2Connection (streams dict, _handle_event, handle_h2_event, protocol_error,
                                     close_connection), Http2Server, Http2Client (our_stream_id / their_stream_id,
